@@ -236,6 +236,28 @@ def run_C14(ctx, proof_ok):
                          "non-increasing for E/D/SPOILER, |F0| <= PD throughout (T2 <= 2 T1 in the generator)")
 
 
+def run_C13(ctx, proof_ok):
+    import c13
+
+    a = run_core(ctx, 13, budget(ctx.tier, 250, 4000), maxlen=budget(ctx.tier, 30, 60), truncate=True, with_bloch=False)
+    E = epg()
+    r = lib.rng(113)
+    n1, d1, dist = c13.horizon(r, E, budget(ctx.tier, 200, 5000))
+    n2, d2 = c13.merge_exact(r, E, budget(ctx.tier, 120, 3000))
+    n3, d3 = c13.partials_pruner(r, E, budget(ctx.tier, 40, 600))
+    n4, d4 = c13.prune_bound(r, E, budget(ctx.tier, 120, 3000))
+    for d in d1 + d2 + d3 + d4:
+        ctx.violations.append(d)
+    a["evaluations"] += n1 + n2 + n3 + n4
+    a["distribution"].update({"horizon_acquisitions": n1, "horizon_programs": dist, "merge_cases": n2, "pruner_cases": n3,
+                              "prune_bound_acquisitions": n4})
+    a["rule"] += (" || searches on the real code: truncated (max_nstate=n) vs untruncated simulate() over random signed step "
+                  "sequences in 1-D and n-D, acquisitions compared while the accumulated |shift| per component <= 2n+1, stored "
+                  "indices <= n; gridded shifts fine vs coarse grid (sum of amplitudes at x=0 equal, bound at x); PartialsPruner "
+                  "(batched T2) bound threshold x removals; pruning bound 2*eps*cumulative states")
+    return a
+
+
 def merge_results(a, b, rule):
     out = dict(a)
     out["evaluations"] = a["evaluations"] + b["evaluations"]
@@ -521,6 +543,17 @@ PROPS["C14"] = {
     "partial": ["proved on the 1-D state model: T/Phi/P/S isometries, E and Spoiler contractions, symmetric norm = code norm for "
                 "well-formed states; `norm = RMS isochromat length` (Parseval), diffusion contraction and the |signal| <= PD bound "
                 "are covered by the search on the real code only"],
+}
+
+PROPS["C13"] = {
+    "lean_modules": ["EpgVerif.Props.C13"],
+    "tie": TIE_OP,
+    "audit": "EpgVerif/Audit/C13.lean",
+    "run": run_C13,
+    "replay": replay_core,
+    "partial": ["proved: no state beyond the cap and the exactness horizon 2n+1 for the 1-D model from the default initial state; "
+                "the n-D horizon, the pruning / partials-pruner / merging bounds are covered by the searches on the real code only; "
+                "tightness of the horizon (a difference at A = 2n+2) is exhibited numerically, not proved"],
 }
 
 NOT_CLAIMED = {}
